@@ -298,9 +298,10 @@ class UserModule(Module):
 
     def __init__(self, n_in, n_out, dtype, seed):
         super().__init__()
-        self.a = _dyadic((n_out, n_in), seed + 5).to(dtype)
-        self.b = _dyadic((n_out,), seed + 6, lo=-4, hi=5).to(dtype)
-        self.c = _dyadic((n_out,), seed + 7, lo=4, hi=12).to(dtype)
+        # trainable, like any user network: outputs require grad when autograd is enabled
+        self.a = torch.nn.Parameter(_dyadic((n_out, n_in), seed + 5).to(dtype))
+        self.b = torch.nn.Parameter(_dyadic((n_out,), seed + 6, lo=-4, hi=5).to(dtype))
+        self.c = torch.nn.Parameter(_dyadic((n_out,), seed + 7, lo=4, hi=12).to(dtype))
 
     def forward(self, x):
         cols = []
@@ -328,7 +329,24 @@ def make_module(kind, n_in, n_out, dtype, seed):
         return m
     if kind == "user":
         return UserModule(n_in, n_out, dtype, seed)
+    if kind == "identity":
+        assert n_in == n_out
+        return torch.nn.Identity()
+    if kind == "first":
+        return FirstColumns(n_out)
     raise KeyError(kind)
+
+
+class FirstColumns(Module):
+    """hedge ratio := the first input feature(s), returned as a VIEW of the input (no new tensor),
+    as torch.nn.Identity does: what the hedger does to its model output it does to the input."""
+
+    def __init__(self, n_out):
+        super().__init__()
+        self.n_out = n_out
+
+    def forward(self, x):
+        return x[..., : self.n_out]
 
 
 class IgnoreLast(Module):
@@ -370,6 +388,11 @@ def model_ok(m, w):
         if H != 1:
             return False
         if m["model"] == "ww" and m.get("mode") == "stepwise":
+            return False
+    if m["model"] in ("identity", "first"):
+        H = {"default": 1, "ul": 1, "listed": 1}.get(w.get("hedge", "default"), 2)
+        n_in = sum(n_columns(s, H) for s in m["inputs"])
+        if H != 1 or (m["model"] == "identity" and n_in != 1):
             return False
     return all(feature_supported(s, w) for s in m.get("inputs", []))
 
